@@ -252,7 +252,7 @@ def gen_kernels(seed, tier):
         yield finish_case(levels, _mk_ops(levels, [a, None]), {"d": 1, "tree": [], "shape": [n + 4]},
                           [["W", "iter"], ["W", "populate_1"]], [2, 1000], 0, prematch=False)
     # ---- templates and random nests on random trees
-    nrand = 3000 if tier == "quick" else 30000
+    nrand = 3000 if tier == "quick" else 60000
     names = sorted(TEMPLATES)
     for i in range(nrand):
         dflt = rng.choice([0, 0, 0, 7])
@@ -302,7 +302,7 @@ TYPES = ["iter", "t1"]
 
 def gen_api(seed, tier):
     rng = random.Random(seed * 104729 + 61)
-    n = 2500 if tier == "quick" else 20000
+    n = 2500 if tier == "quick" else 40000
     for _ in range(n):
         evs = []
         ranks = RANKS[:rng.choice([1, 2, 3])]
